@@ -1,9 +1,11 @@
 -------------------------- MODULE MC_NewlineCache --------------------------
-(* Bounded model: every text over {a, e-acute (2 bytes), LF, CR} up to MaxLen bytes,
-   fed in every chunking into at most MaxFeeds pieces. *)
-EXTENDS NewlineCache
-CONSTANTS MaxLen, MaxFeeds, Fixed
-Chars == { <<97>>, <<LF>>, <<CR>>, <<195, 169>> }
+(* Bounded model: every text over {a, e-acute (2 bytes), a CJK ideograph (3 bytes, 2 columns),
+   LF, CR} up to MaxLen bytes, fed in every chunking into at most MaxFeeds pieces.
+   Fixed / FixedR: the cache's span_line_bytes guard / the formatter's rendering loop with (TRUE)
+   or without (FALSE) their "fix:" commits - the FALSE variants must be refuted. *)
+EXTENDS Diagnostics
+CONSTANTS MaxLen, MaxFeeds, Fixed, FixedR
+Chars == { <<97>>, <<LF>>, <<CR>>, <<195, 169>>, <<228, 184, 150>> }
 RECURSIVE Flat(_)
 Flat(cs) == IF cs = <<>> THEN <<>> ELSE Head(cs) \o Flat(Tail(cs))
 Chunks(n) == UNION { [1 .. k -> Chars] : k \in 0 .. n }
@@ -14,4 +16,5 @@ MCSpec == NLInit /\ [][MCFeed]_nvars
 InvState == StateOK
 InvQueries == QueriesOK /\ OutOfRangeOK
 InvSpans == SpansOK(Fixed)
+InvRender == RenderOK(FixedR)
 =============================================================================
